@@ -168,6 +168,9 @@ pub struct WCfg {
     pub keep_every: u32,
     /// destructor-fault configuration (C19): relaxed, narrowly re-synchronised oracle
     pub faults: bool,
+    /// how many of the pre-allocated entities stay alive at most (0 = default 160)
+    #[serde(default)]
+    pub keep_cap: u32,
 }
 
 #[derive(Clone, Debug, Serialize, Deserialize)]
